@@ -67,6 +67,22 @@ def h_rk(n, kw):
     return fn
 
 
+def h_int_coords(which):
+    """integer-typed coordinates (list of ints / integer array): the step is not truncated.  Concrete sample: a dtype
+    question has no symbolic dimension (a symbolic step cannot be stored in an integer array at all)"""
+    def fn():
+        from atomman.mep.integrator import euler, rungekutta
+        A = np.array([[0.3, -1.2], [0.7, 0.4]]); h = 0.05
+        ob = []
+        for tag, y in (('integer ndarray', np.array([2, -3])), ('list of ints', [2, -3])):
+            f = euler if which == 'euler' else rungekutta
+            r = np.asarray(f(lambda c: np.dot(A, c), y, h), dtype=float)
+            ref = np.asarray(_taylor(A, np.array([2.0, -3.0]), h, 1 if which == 'euler' else 4), dtype=float)
+            ob.append((f'{which} on a {tag} equals the Taylor polynomial of the float-valued problem (no truncation to integers)', bool(r.shape == (2,) and np.allclose(r, ref, rtol=1e-12, atol=1e-12))))
+        return ob
+    return fn
+
+
 def h_rk_scalar():
     def fn():
         from atomman.mep.integrator import rungekutta, euler
@@ -261,6 +277,8 @@ def cases(tier, seed=0):
                            descr=f'euler on y\'=Ay, n={n}, kwargs={kw}'))
             cs.append(Case(f'rk_n{n}{"_kw" if kw else ""}', h_rk(n, kw), bind=BIND, budget_s=120, timeout_ms=30000,
                            descr=f'rungekutta on y\'=Ay vs degree-4 Taylor polynomial of exp(hA), n={n}, kwargs={kw}'))
+    for w in ('euler', 'rk'):
+        cs.append(Case(f'{w}_integer_coords', h_int_coords(w), concrete_only=True, budget_s=60, descr=f'CONCRETE SAMPLE: {w} step on integer-typed coordinates'))
     cs.append(Case('rk_scalar', h_rk_scalar(), bind=BIND, descr='scalar coord (float input)'))
     combos = [(1, 4, 0), (2, 3, 0), (2, 4, 0), (2, 2, 2)] if tier == 'quick' else \
              [(1, 4, 0), (2, 3, 0), (2, 4, 0), (3, 3, 0), (3, 4, 0), (2, 4, 2), (3, 3, 2)]
